@@ -765,8 +765,10 @@ def g_add_link(w, rng, st):
     cands = [(a, b, cp) for a, b, cp in all_ifaces(st) if st.typ(cp) != 'ServicePort']
     if len(cands) < 2:
         return None
-    k = rng.choice([2, 2, 2, 3])
+    k = rng.choice([2, 2, 3, 3])
     rng.shuffle(cands)
+    # ports that carry sub-interfaces first: removing their owner later exercises the shared-link rule
+    cands.sort(key=lambda c: 0 if st.child_cps(c[2]) else 1)
     existing = [st.name(l) for l in st.of_class('Link')]
     return {'name': pick_name(rng, ['l1', 'l2', 'l3', 'l4'], existing), 'ltype': rng.choice(['L2Path', 'Patch', 'L1Path']),
             'ifs': [{'node': a, 'if': b} for a, b, _ in cands[:k]], 'id': w.new_id(rng)}
@@ -1089,8 +1091,15 @@ def failing_variants(w, rng, st):
                     'model': 'SmartNIC_ConnectX_6', 'id': nid() if sub else None, 'kw': {'labels': 12},
                     'nsid': nid(), 'ifids': [nid(), nid()]})
         if anyid:
-            out.append({'template': 'dup_component_id', 'call': 'add_component', 'node': st.name(n), 'name': 'cX',
-                        'model': 'SmartNIC_ConnectX_5', 'id': rng.choice(anyid), 'nsid': nid(), 'ifids': [nid(), nid()]})
+            # an id in use by an element of each class in turn (a component whose interface is connected first)
+            for target in sorted(set(st.cls(i) for i in anyid)):
+                cands = [x for x in anyid if st.cls(x) == target]
+                if target == 'Component':
+                    hot = [c for c in cands if any(st.links_of_cp(cp) for cp in st.component_interfaces(c))]
+                    cands = hot or cands
+                out.append({'template': 'dup_component_id', 'pos': target, 'call': 'add_component', 'node': st.name(n),
+                            'name': 'cX', 'model': 'SmartNIC_ConnectX_5', 'id': rng.choice(cands), 'nsid': nid(),
+                            'ifids': [nid(), nid()]})
         if sub and anyid:
             for pos in (0, 1):
                 ifids = [nid(), nid()]
@@ -1264,3 +1273,4 @@ def x_failing(w, s, st, info):
     w.stats.inc('probe.unexpected_accept.%s' % s['template'])
 
 from . import w2_props  # noqa: E402,F401  (registers the property operations)
+from . import w2_validate  # noqa: E402,F401
